@@ -163,6 +163,13 @@ def c04(A):
                             o.bad("connect-deferred-never-fires", "no CONNACK, deadline t=%.3f passed, Deferred unfired" % deadline, call)
                     else:
                         open_until = min(x for x in (c.i_close_req, c.i_lost, BIGI) if x is not None)
+                        if (blown and not blown[0].get("raw") and A.inbound_pkts(blown[0])[0].get("t") == "CONNACK"
+                                and f["step"] != blown[0]["step"]):
+                            # the answer arrived (alone, well-formed), the library raised on it, and the Deferred
+                            # only fired later through the timeout or the loss that followed
+                            rcv = A.inbound_pkts(blown[0])[0]["rc"]
+                            o.bad("connack-rc-unhandled/%s" % ("rc>=6" if rcv >= 6 else "rc<6"),
+                                  "CONNACK rc=%d raised inside the library; connect() Deferred did not fire in that step" % rcv, blown[0])
                         if open_until > f["i"] and not blown:
                             # undisturbed handshake: this must be the timeout, on time, closing the transport
                             if f["ok"] or f["etype"] != "MQTTTimeoutError":
